@@ -57,6 +57,13 @@ def main():
             prop = name.split("_")[0]
         else:
             patch, name, prop = t, os.path.basename(t), None
+            m = re.match(r"hand_(C\d\d)_", name)
+            if m:
+                prop = m.group(1)
+            m = re.match(r"unfix_([0-9a-f]+)\.patch", name)
+            if m:
+                known = json.load(open(os.path.join(VERIF, "known_findings.json")))
+                prop = next((f["property"] for f in known["fixed"] if f["commit"] == m.group(1)), None)
         props = ALL if (all_checks or prop is None) else RELATED.get(prop, [prop])
         work.append((name, os.path.abspath(patch), props, t))
     matrix_path = os.path.join(VERIF, "seeded", "MATRIX.json")
